@@ -225,10 +225,11 @@ def selftest() -> int:
         print(f"selftest: liquid imported from {where}, expected {repo}")
         return 2
     n = 0
-    for fn in sorted(os.listdir(os.path.join(HOME, "mc", "props"))):
-        if fn.startswith("c") and fn.endswith(".py"):
-            load_check(fn[:-3].upper())
-            n += 1
+    with open(os.path.join(HOME, "MANIFEST.json")) as fd:
+        claimed = [c["property_id"] for c in json.load(fd)["checks"]]
+    for pid in claimed:
+        load_check(pid)
+        n += 1
     os.makedirs(os.path.join(HOME, "evidence"), exist_ok=True)
     print(f"selftest ok: liquid {liquid.__version__} from {where}; {n} drivers import")
     return 0
